@@ -96,6 +96,18 @@ func (*PgQueryDBDataCoder) Decode(aConst *pg_query.A_Const, setting config.Colum
 	return nil, base.ErrUnsupportedExpression
 }
 
+// isNumericLiteral tells whether data is spelled as a plain decimal number (digits, one optional
+// point, optional exponent, optional leading sign)
+func isNumericLiteral(data []byte) bool {
+	for _, c := range data {
+		if (c < '0' || c > '9') && c != '.' && c != 'e' && c != 'E' && c != '+' && c != '-' {
+			return false
+		}
+	}
+	_, err := strconv.ParseFloat(string(data), 64)
+	return err == nil
+}
+
 // Encode data to correct literal from binary data for this expression
 func (*PgQueryDBDataCoder) Encode(aConst *pg_query.A_Const, data []byte, setting config.ColumnEncryptionSetting) error {
 	switch {
@@ -104,7 +116,19 @@ func (*PgQueryDBDataCoder) Encode(aConst *pg_query.A_Const, data []byte, setting
 		if setting.GetDBDataTypeID() != 0 && setting.GetDBDataTypeID() != pgtype.ByteaOID {
 			// valid strings we pass as is without extra encoding
 			if utils.IsPrintablePostgresqlString(data) {
-				aConst.GetFval().Fval = string(data)
+				// the text of a float node is printed as it is, without quotes: only a number may
+				// stay in it, anything else (a token of letters) would reach the database as a bare word
+				if isNumericLiteral(data) {
+					aConst.GetFval().Fval = string(data)
+					return nil
+				}
+				*aConst = pg_query.A_Const{
+					Val: &pg_query.A_Const_Sval{
+						Sval: &pg_query.String{
+							Sval: string(data),
+						},
+					},
+				}
 				return nil
 			}
 		}
